@@ -53,6 +53,11 @@ class Facts:
             if m2 is not None:
                 f.x['mir'] = m2
                 f.body = Body(self, m2, f.path)
+        self.sroa = []
+        try:
+            sroa_private_params(self)
+        except Exception as e:
+            self.sroa_error = '%s: %s' % (type(e).__name__, e)
         self.flat = {}
         try:
             flatten_private_aggregates(self)
@@ -515,6 +520,8 @@ class Body:
                     base = base[1] if pr['f'] == '0' else ('overflow', base[1])
                 elif base[0] == 'tuple' and pr['f'].isdigit() and int(pr['f']) < len(base[1]):
                     base = base[1][int(pr['f'])]
+                elif base[0] == 'adt' and len(base) == 4 and pr['f'] in dict(base[3]):
+                    base = dict(base[3])[pr['f']]        # field of a struct literal
                 elif pr.get('of') in self.facts.flat and base[0] == 'field' and isinstance(base[2], str):
                     base = ('field', base[1], base[2] + '.' + pr['f'])      # field of a flattened private sub-object
                 else:
@@ -1878,4 +1885,300 @@ def model_std_hir(n, facts):
             none = {'k': 'path', 'res': 'def', 'path': 'std::prelude::v1::None', 'local': False, 'ty': ty}
             return {'k': 'if', 'cond': out['recv'], 'then': {'k': 'block', 'stmts': [], 'tail': some}, 'else': {'k': 'block', 'stmts': [], 'tail': none},
                     'ty': ty, 'line': out.get('line'), 'modelled': 'bool::then'}
+    return out
+
+
+# --------------------------------------------------------------------------- private parameter structs
+
+
+def sroa_private_params(facts):
+    """A private function that takes a private struct by value, built by a struct literal at every call site
+    (`work.reset(.., Layout { a, b, c })`, `self.fft_private(data, Span { pos, size, .. })`), is normalised to the same function
+    taking the fields as separate parameters, in field order: MIR (the old parameter becomes a local assigned the aggregate of
+    the new parameters at entry, so every use stays valid), HIR (parameter list, destructuring `let`, field reads), and every
+    call site (arguments spliced).  Grouping positional parameters into a struct is a matter of notation."""
+    structs = {}
+    for pth, a in facts.adts.items():
+        if a.get('kind') == 'struct' and not a.get('reachable') and len(a.get('variants', [])) == 1 and a['variants'][0]['fields']:
+            structs[pth] = [(fl['name'], fl['ty']) for fl in a['variants'][0]['fields']]
+    if not structs:
+        return
+    sites = defaultdict(list)
+    for p, fn in facts.fns.items():
+        for b, t in fn.body.calls():
+            q = t['callee'].get('path')
+            if q in facts.fns:
+                sites[q].append((p, b))
+    for gp, g in sorted(facts.fns.items()):
+        if g.reachable or g.impl_trait or g.in_trait or g.kind == 'Closure' or not sites.get(gp):
+            continue
+        mir = g.body.mir
+        todo = []
+        for i in range(1, mir['arg_count'] + 1):
+            ty = mir['locals'][i]['ty']
+            if ty not in structs:
+                continue
+            ok = True
+            for (cp, b) in sites[gp]:
+                cb = facts.fns[cp].body
+                t = cb.term(b)
+                if len(t['args']) != mir['arg_count']:
+                    ok = False
+                    break
+                rv = _agg_def(cb, op_place(t['args'][i - 1]))
+                if not (rv is not None and rv.get('agg') == 'adt' and rv.get('adt') == ty and rv.get('fields') == [n for n, _ in structs[ty]]):
+                    ok = False
+                    break
+            if ok:
+                todo.append(i)
+        if not todo:
+            continue
+        # ---- callee MIR
+        old_locals = mir['locals']
+        new_locals = [old_locals[0]]
+        lmap = {0: 0}
+        newparams = {}
+        for i in range(1, mir['arg_count'] + 1):
+            if i in todo:
+                ids = []
+                for (fname, fty) in structs[old_locals[i]['ty']]:
+                    ids.append(len(new_locals))
+                    new_locals.append({'ty': fty, 'name': fname, 'user': True, 'mut': False, 'sroa_of': old_locals[i].get('name')})
+                newparams[i] = ids
+            else:
+                lmap[i] = len(new_locals)
+                new_locals.append(old_locals[i])
+        new_argc = len(new_locals) - 1
+        for i in range(mir['arg_count'] + 1, len(old_locals)):
+            lmap[i] = len(new_locals)
+            new_locals.append(old_locals[i])
+        for i in todo:
+            lmap[i] = len(new_locals)
+            lo = dict(old_locals[i])
+            lo['user'] = False
+            lo.pop('name', None)
+            new_locals.append(lo)
+        blocks = _remap_mir(mir['blocks'], lambda l: lmap[l], lambda b: b)
+        # where the old parameter is only ever read field by field, the reads go straight to the new parameters (field-precise);
+        # otherwise it becomes a local holding the aggregate of the new parameters
+        direct = set()
+        for i in todo:
+            fnames = [n for n, _ in structs[old_locals[i]['ty']]]
+            whole = [False]
+
+            def scan(n, tgt=lmap[i]):
+                if isinstance(n, list):
+                    for x in n:
+                        scan(x)
+                elif isinstance(n, dict):
+                    if 'l' in n and 'p' in n and isinstance(n['p'], list):
+                        if n['l'] == tgt and not (n['p'] and isinstance(n['p'][0], dict) and n['p'][0].get('f') in fnames):
+                            whole[0] = True
+                        for e in n['p']:
+                            if isinstance(e, dict) and e.get('idx') == tgt:
+                                whole[0] = True
+                        return
+                    for v in n.values():
+                        if isinstance(v, (dict, list)):
+                            scan(v)
+            scan(blocks)
+            if not whole[0]:
+                direct.add(i)
+                fidx = {n: newparams[i][k] for k, n in enumerate(fnames)}
+
+                def rew(n, tgt=lmap[i], fidx=fidx):
+                    if isinstance(n, list):
+                        return [rew(x) for x in n]
+                    if not isinstance(n, dict):
+                        return n
+                    if 'l' in n and 'p' in n and isinstance(n['p'], list):
+                        if n['l'] == tgt:
+                            d = dict(n)
+                            d['l'] = fidx[n['p'][0]['f']]
+                            d['p'] = list(n['p'][1:])
+                            return d
+                        return n
+                    return {k: (rew(v) if isinstance(v, (dict, list)) else v) for k, v in n.items()}
+                blocks = rew(blocks)
+        entry = []
+        for i in todo:
+            if i in direct:
+                continue
+            sty = old_locals[i]['ty']
+            entry.append({'k': 'assign', 'lhs': {'l': lmap[i], 'p': []}, 'line': g.span, 'exp': False, 'sroa': True,
+                          'rv': {'k': 'agg', 'agg': 'adt', 'adt': sty, 'variant': sty.split('::')[-1], 'vi': 0, 'adt_args': [],
+                                 'fields': [n for n, _ in structs[sty]], 'ops': [{'copy': {'l': x, 'p': []}} for x in newparams[i]]}})
+        blocks[0] = dict(blocks[0])
+        blocks[0]['stmts'] = entry + list(blocks[0]['stmts'])
+        nm = dict(mir)
+        nm['blocks'], nm['locals'], nm['arg_count'] = blocks, new_locals, new_argc
+        g.x['mir'] = nm
+        g.body = Body(facts, nm, gp)
+        ninputs = []
+        for i, ty in enumerate(g.inputs, start=1):
+            if i in todo:
+                ninputs.extend(t_ for _, t_ in structs[ty])
+            else:
+                ninputs.append(ty)
+        g.inputs = ninputs
+        g.x['inputs'] = ninputs
+        # ---- callee HIR
+        if g.hir and len(g.hir.get('params', [])) == mir['arg_count']:
+            hp = g.hir['params']
+            body = g.hir['value']
+            nparams = []
+            for i, pt in enumerate(hp, start=1):
+                if i not in todo or pt.get('k') != 'bind':
+                    nparams.append(pt)
+                    continue
+                sty = old_locals[i]['ty']
+                fields = structs[sty]
+                ids = {}
+                # a destructuring `let S { a, b: c, .. } = param;` at the top of the body gives the field locals their ids
+                stmts = body.get('stmts', []) if isinstance(body, dict) and body.get('k') == 'block' else []
+                keep = []
+                for st in stmts:
+                    init = strip_refs(st.get('init')) if st.get('k') == 'let' and isinstance(st.get('init'), dict) else None
+                    if init is not None and init.get('k') == 'path' and init.get('id') == pt['id'] and st['pat'].get('k') == 'struct' and 'else' not in st:
+                        for fp in st['pat'].get('fields', []):
+                            if fp['pat'].get('k') == 'bind':
+                                ids[fp['name']] = (fp['pat']['id'], fp['pat']['name'])
+                        continue
+                    keep.append(st)
+                if ids and isinstance(body, dict):
+                    body = dict(body)
+                    body['stmts'] = keep
+                fresh = 9000000 + 1000 * i
+                fmap = {}
+                for k_, (fname, fty) in enumerate(fields):
+                    fid, fnm = ids.get(fname, (fresh + k_, fname))
+                    fmap[fname] = (fid, fnm, fty)
+                    nparams.append({'k': 'bind', 'name': fnm, 'id': fid, 'mode': 'BindingMode(No, Not)', 'ty': fty})
+                body = _hir_param_fields(body, pt['id'], fmap)
+            g.hir = {'params': nparams, 'value': body}
+            g.x['hir'] = g.hir
+        # ---- call sites
+        for (cp, b) in sites[gp]:
+            cf = facts.fns[cp]
+            cb = cf.body
+            t = cb.term(b)
+            nargs = []
+            for i, a in enumerate(t['args'], start=1):
+                if i in todo:
+                    rv = _agg_def(cb, op_place(a))
+                    nargs.extend(rv['ops'])
+                else:
+                    nargs.append(a)
+            t['args'] = nargs
+            cb._defs = None
+            if cf.hir:
+                fo = {i: structs[old_locals[i]['ty']] for i in todo}
+                # `let x = S { .. }; f(.., x)`: the struct-valued local becomes one local per field
+                lets = {}
+                for (m_, _) in hir_find(cf.hir, lambda m: m.get('k') == 'let' and isinstance(m.get('pat'), dict) and m['pat'].get('k') == 'bind'
+                                        and isinstance(m.get('init'), dict) and strip_refs(m['init']).get('k') == 'struct' and 'else' not in m):
+                    sn = strip_refs(m_['init'])
+                    for i in todo:
+                        if (sn.get('path') or {}).get('path', '').split('::')[-1] == old_locals[i]['ty'].split('::')[-1] and \
+                                sorted(f['name'] for f in sn.get('fields', [])) == sorted(n for n, _ in fo[i]):
+                            lets[m_['pat']['id']] = (m_, sn, fo[i])
+                if lets:
+                    cf.hir = _hir_split_struct_lets(cf.hir, lets)
+                cf.hir = _hir_splice_args(cf.hir, gp, todo, fo, mir['arg_count'], {lid: v[2] for lid, v in lets.items()})
+                cf.x['hir'] = cf.hir
+        facts.sroa.append((gp, [old_locals[i].get('name') for i in todo]))
+
+
+def _agg_def(body, pl, hops=0):
+    """the aggregate rvalue a plain local was built by (through single-definition copies / moves)"""
+    if pl is None or pl['p'] or hops > 4:
+        return None
+    ds = body.defs().get(pl['l'], [])
+    if len(ds) != 1 or ds[0][0] != 'stmt':
+        return None
+    rv = body.blocks[ds[0][1]]['stmts'][ds[0][2]]['rv']
+    if rv['k'] == 'agg':
+        return rv
+    if rv['k'] == 'use':
+        return _agg_def(body, op_place(rv['op']), hops + 1)
+    return None
+
+
+def _hir_param_fields(n, pid, fmap):
+    """`param.f` -> the new parameter for field f"""
+    if isinstance(n, list):
+        return [_hir_param_fields(x, pid, fmap) for x in n]
+    if not isinstance(n, dict):
+        return n
+    if n.get('k') == 'field':
+        x = strip_refs(n.get('x')) if isinstance(n.get('x'), dict) else None
+        if x is not None and x.get('k') == 'path' and x.get('res') == 'local' and x.get('id') == pid and n.get('name') in fmap:
+            fid, fnm, fty = fmap[n['name']]
+            return {'k': 'path', 'res': 'local', 'name': fnm, 'id': fid, 'ty': fty}
+    return {k: (_hir_param_fields(v, pid, fmap) if isinstance(v, (dict, list)) else v) for k, v in n.items()}
+
+
+def _split_id(lid, k):
+    return 8000000 + (lid % 100000) * 16 + k
+
+
+def _hir_split_struct_lets(n, lets):
+    """`let x = S { a: e1, b: e2 }` -> `let x.a = e1; let x.b = e2;` (field order of S); `x.a` -> the new local"""
+    if isinstance(n, list):
+        out = []
+        for x in n:
+            if isinstance(x, dict) and x.get('k') == 'let' and isinstance(x.get('pat'), dict) and x['pat'].get('k') == 'bind' and x['pat'].get('id') in lets \
+                    and lets[x['pat']['id']][0] is x:
+                _, sn, fields = lets[x['pat']['id']]
+                byname = {f['name']: f['e'] for f in sn['fields']}
+                for k, (fname, fty) in enumerate(fields):
+                    out.append({'k': 'let', 'pat': {'k': 'bind', 'name': '%s.%s' % (x['pat']['name'], fname), 'id': _split_id(x['pat']['id'], k),
+                                                    'mode': 'BindingMode(No, Not)', 'ty': fty},
+                                'init': _hir_split_struct_lets(byname[fname], lets), 'line': x.get('line')})
+            else:
+                out.append(_hir_split_struct_lets(x, lets))
+        return out
+    if not isinstance(n, dict):
+        return n
+    if n.get('k') == 'field':
+        x = strip_refs(n.get('x')) if isinstance(n.get('x'), dict) else None
+        if x is not None and x.get('k') == 'path' and x.get('res') == 'local' and x.get('id') in lets:
+            fields = lets[x['id']][2]
+            for k, (fname, fty) in enumerate(fields):
+                if fname == n.get('name'):
+                    return {'k': 'path', 'res': 'local', 'name': '%s.%s' % (x.get('name'), fname), 'id': _split_id(x['id'], k), 'ty': fty}
+    return {k: (_hir_split_struct_lets(v, lets) if isinstance(v, (dict, list)) else v) for k, v in n.items()}
+
+
+def _hir_splice_args(n, callee, todo, fields_of, argc, split_locals=None):
+    split_locals = split_locals or {}
+    if isinstance(n, list):
+        return [_hir_splice_args(x, callee, todo, fields_of, argc, split_locals) for x in n]
+    if not isinstance(n, dict):
+        return n
+    out = {k: (_hir_splice_args(v, callee, todo, fields_of, argc, split_locals) if isinstance(v, (dict, list)) else v) for k, v in n.items()}
+    is_m = out.get('k') == 'mcall' and out.get('path') == callee
+    is_c = out.get('k') == 'call' and isinstance(out.get('f'), dict) and out['f'].get('k') == 'path' and out['f'].get('path') == callee
+    if not (is_m or is_c):
+        return out
+    args = ([out['recv']] if is_m else []) + list(out['args'])
+    if len(args) != argc:
+        return out
+    nargs = []
+    for i, a in enumerate(args, start=1):
+        a0 = strip_refs(a) if isinstance(a, dict) else a
+        if i in todo and isinstance(a0, dict) and a0.get('k') == 'struct':
+            byname = {f['name']: f['e'] for f in a0.get('fields', [])}
+            if all(fn_ in byname for fn_, _ in fields_of[i]):
+                nargs.extend(byname[fn_] for fn_, _ in fields_of[i])
+                continue
+        if i in todo and isinstance(a0, dict) and a0.get('k') == 'path' and a0.get('res') == 'local' and a0.get('id') in split_locals:
+            for k, (fname, fty) in enumerate(split_locals[a0['id']]):
+                nargs.append({'k': 'path', 'res': 'local', 'name': '%s.%s' % (a0.get('name'), fname), 'id': _split_id(a0['id'], k), 'ty': fty})
+            continue
+        nargs.append(a)
+    if is_m:
+        out['recv'], out['args'] = nargs[0], nargs[1:]
+    else:
+        out['args'] = nargs
     return out
